@@ -29,6 +29,15 @@ CHECKS = {
             '|values| <= 1e3; max_length_diff=0 and only_ub combined with max_length_diff are outside the domain '
             '(not expressible / not fixed by a property).',
             'DESIGN.md §3 C02'),
+    'C03': ('metamorphic property-based testing (Hypothesis): every routine with vs without max_dist / use_pruning, '
+            'thresholds constructed from reference distances',
+            'Generated (series triple, settings) cases; for each Python/C routine (distance, warping_paths full/compact, '
+            'distance matrices, n-D variants) the result with max_dist=m must be the unbounded value or inf according to '
+            'the side of m, and use_pruning must be bitwise neutral wherever ED is a valid bound; inputs are biased to '
+            'DTW == ED. The unbounded value is cross-checked against the independent reference.',
+            'Trusts vlib/ref.py for constructing thresholds and for the non-triviality measurement; thresholds within '
+            '1e-6 relative of the distance are excluded (as the property does).',
+            'DESIGN.md §3 C03'),
     'C17': ('property-based testing (Hypothesis) + exhaustive enumeration of a small sub-space against an independent '
             'alignment DP and brute-force alignment enumeration',
             'Generated sequences/scoring schemes/traceback orders plus the complete sub-space {A,B}^(<=4) x {A,B}^(<=4) x '
